@@ -74,7 +74,7 @@ namespace OpenMEEG {
     SymMatrix SymMatrix::submat(const Index istart,const Index iend) const {
         om_assert(iend>istart);
         const Index isize = iend-istart+1;
-        om_assert(istart+isize<=nlin());
+        om_assert(iend<nlin());
 
         SymMatrix mat(isize);
         for (Index i=istart; i<=iend; ++i)
